@@ -2,15 +2,25 @@
 """C01: end-to-end transparency of the tunnel (TCP and UDP, every entry point).
 
 spec/DirectConn.tla     the ORACLE: what the two ends of a direct connection observe (monitors Prefix, Complete,
-                        HalfClose, ClosedNotHanging over an event history; the UDP relation; SOCKS5 replies through
-                        ParseUdp of Socks.tla), written from the text of the property
+                        HalfClose, ClosedNotHanging, Independent over an event history; the UDP relation, including the
+                        target every datagram is addressed to; SOCKS5 replies through ParseUdp of Socks.tla), written
+                        from the text of the property
 spec/MC_DirectConn.tla  TLC runs every pair of endpoint programs over an ideal direct connection (monitors hold on every
                         interleaving, no program pair deadlocks), over broken networks / relays (negative controls: every
                         monitor fires), and GENERATES the scenario scripts: one SHAPE / USHAPE line per initial state,
-                        one DIM line with the dimensions of concretisation (entry point kinds, size classes, ...)
+                        one DIM line with the dimensions of concretisation (entry point kinds, size classes, ...).
+                        Three families of TCP shapes: (1) writes, half-close / close in every order, refusal; (2) "hold":
+                        one endpoint starts with its reader HELD, the other streams a write that blocks against it
+                        (back-pressure), the held endpoint's small requests must still ARRIVE (`sync`) - the two
+                        directions are independent pipes; (3) "sync": requests that must arrive while the connection
+                        stays open, after the peer's end-of-stream or concurrently with the peer's own request.
+                        UDP shapes: 1-3 clients, own / shared associations, idle periods, one client alternating
+                        between TWO targets (SOCKS5)
 harness_app tunnel      ONE real penguin server and ONE real penguin client in-process on loopback, one remote per entry
                         point kind; plays every script with real sockets on both ends and logs per-endpoint event
-                        sequences (position-coded payloads: ranges of correctly coded octets, never the octets)
+                        sequences (position-coded payloads: ranges of correctly coded octets, never the octets); it owns
+                        both endpoints of a connection, so `sync` compares their counters: `timeout{what:"delivery"}` =
+                        what this endpoint wrote was not read by the (reading) peer within the deadline
 spec/TunnelTrace.tla    TLC validates every connection: the two endpoint logs are interleaved nondeterministically
                         (per-endpoint order exact, cross-endpoint order inferred), acceptance = some interleaving
                         satisfies the monitors; UDP exchanges through the relation; rejected lines come back with a
@@ -28,13 +38,17 @@ from vlib import log, ToolError
 TIERS = {
     # mc: configurations model-checked; shapes_per_kind: how the generated shapes are spread over entry point kinds;
     # extra_random: seeded random scripts on top; deadline_ms: "left hanging" deadline of the harness
-    "quick": dict(mc=["MC_DirectConn_q"], tcp_conns=96, udp_scripts=12, random_conns=0, deadline_ms=5000, workers=8),
-    "thorough": dict(mc=["MC_DirectConn"], tcp_conns=None, udp_scripts=None, random_conns=5000, deadline_ms=5000, workers=10),
+    # hold_conns: connections with a held reader (each moves 100-500 MiB); sync_conns: requests that must arrive;
+    # alt_scripts: UDP exchanges in which one client alternates between two targets
+    "quick": dict(mc=["MC_DirectConn_q"], tcp_conns=90, udp_scripts=11, random_conns=0, deadline_ms=5000, workers=8,
+                  hold_conns=3, sync_conns=10, alt_scripts=2),
+    "thorough": dict(mc=["MC_DirectConn"], tcp_conns=None, udp_scripts=None, random_conns=5000, deadline_ms=5000, workers=10,
+                     hold_conns=None, sync_conns=None, alt_scripts=None),
 }
 NEG_TCP = {"lose": "Inv_Complete", "gap": "Inv_Prefix", "dup": "Inv_Prefix", "invent": "Inv_Prefix",
-           "nofin": "Inv_HalfClose", "killother": "Inv_HalfClose", "hang": "Inv_Closed"}
+           "nofin": "Inv_HalfClose", "killother": "Inv_HalfClose", "hang": "Inv_Closed", "coupled": "Inv_Independent"}
 NEG_UDP = {"u_wrongclient": "U_Client", "u_wrongsrc": "U_Source", "u_lostreply": "U_Reply", "u_modified": "U_Datagram",
-           "u_replymod": "U_Reply", "u_layout": "U_Header", "u_frag": "U_Header"}
+           "u_replymod": "U_Reply", "u_layout": "U_Header", "u_frag": "U_Header", "u_wrongtarget": "U_Target"}
 OUT_RE = re.compile(r'^<<"(SHAPE|USHAPE|DIM)", "(.*)">>$')
 BAD_RE = re.compile(r'^<<"BAD", (\d+), "([^"]*)", "(.*)">>$')
 NOTE_RE = re.compile(r'^<<"NOTE", (\d+), "([^"]*)">>$')
@@ -88,18 +102,27 @@ def model_check_oracle(T):
         states += r["distinct"]
         transitions += r["states"]
         log(f"[mc] {cfg}: {r['distinct']} distinct states, {r['states']} generated, {r['wall']:.1f}s: Prefix, Complete, "
-            f"HalfClose, ClosedNotHanging hold on every interleaving of every program pair over the ideal connection; no deadlock")
+            f"HalfClose, ClosedNotHanging, Independent hold on every interleaving of every program pair over the ideal connection; no deadlock")
     return runs, states, transitions
 
 
 def negative_controls():
-    res = {}
-    for fault, inv in list(NEG_TCP.items()) + list(NEG_UDP.items()):
+    """Every broken network / relay must violate the invariant named after the monitor that is to catch it. The runs are
+    small and independent: they go in parallel (one TLC worker each), before the real-time section."""
+    import concurrent.futures
+    items = list(NEG_TCP.items()) + list(NEG_UDP.items())
+
+    def one(item):
+        fault, inv = item
         cfg = f"MC_DirectConn_neg_{fault}"
-        r = vlib.model_check("MC_DirectConn", cfg, workers=2, timeout=600, coverage=False)
-        if r["violated"] != inv:
-            raise ToolError(f"negative control {cfg}: expected {inv} violated, TLC reports {r['violated']}")
-        res[fault] = dict(violated=inv, states=r["states"])
+        r = vlib.model_check("MC_DirectConn", cfg, workers=1, timeout=600, coverage=False, xmx="1g")
+        return fault, inv, cfg, r
+    res = {}
+    with concurrent.futures.ThreadPoolExecutor(max_workers=8) as ex:
+        for fault, inv, cfg, r in ex.map(one, items):
+            if r["violated"] != inv:
+                raise ToolError(f"negative control {cfg}: expected {inv} violated, TLC reports {r['violated']}")
+            res[fault] = dict(violated=inv, states=r["states"])
     return res
 
 
@@ -133,7 +156,8 @@ def generate():
     if not shapes or not ushapes or not dims:
         raise ToolError("vacuous generation: no SHAPE / USHAPE / DIM line")
     # vacuity of the enumeration: the orders of half-close / close the property quantifies over are all there
-    need = dict(refuse=0, target_close_first=0, client_close_first=0, client_hc_first=0, target_hc_first=0, both_free=0)
+    need = dict(refuse=0, target_close_first=0, client_close_first=0, client_hc_first=0, target_hc_first=0, both_free=0,
+                held_client=0, held_target=0, sync_after_peer_eof=0, sync_concurrent=0)
     for s in shapes:
         for f in features(s):
             if f in need:
@@ -141,6 +165,8 @@ def generate():
     for f, n in need.items():
         if n == 0:
             raise ToolError(f"vacuous generation: no shape with feature {f}")
+    if not any(a >= 10 for u in ushapes for prof in u["clients"] for a in prof):
+        raise ToolError("vacuous generation: no UDP shape with a second target")
     return shapes, ushapes, dims, runs, st, tr, need
 
 
@@ -152,6 +178,15 @@ def features(shape):
     """Names of what a shape exercises (used to spread the quick sample and to count coverage)."""
     c, t = shape["c"], shape["t"]
     f = set()
+    if shape.get("rhold", "none") != "none":
+        # back-pressure: the held endpoint's requests must arrive although the other direction is blocked
+        f.add("held_client" if shape["rhold"] == "c" else "held_target")
+        return f
+    if "sync" in ops(c) + ops(t):
+        for p, q in ((c, t), (t, c)):
+            if "sync" in ops(p):
+                f.add("sync_after_peer_eof" if ops(p)[0] == "wait" else "sync_concurrent" if "sync" in ops(q) else "sync_plain")
+        return f
     if ops(t) == ["refuse"]:
         f.add("refuse")
         f.add("refuse_wait" if "wait" in ops(c)[:-1] else "refuse_nowait")
@@ -202,6 +237,12 @@ def concretise(shape, entry, dims, rng, tier, k):
                     if cl["name"] == "huge" and rng.random() < 0.8:
                         cl = classes[rng.randrange(len(classes) - 1)]
                     out.append(dict(op="w", n=cl["n"], chunk=cl["chunk"], cls=cl["name"]))
+            elif o["op"] == "wbig":
+                b = [x for x in dims["big"] if x["quick"] or tier == "thorough"]
+                b = b[k % len(b)]
+                out.append(dict(op="wbig", piece=b["piece"], max=b["max"], chunk=b["chunk"], cls=b["name"]))
+            elif o["op"] == "sleep":
+                out.append(dict(op="sleep", ms=dims["sleep_ms"]))
             elif o["op"] != "refuse":
                 out.append(dict(op=o["op"]))
         return out
@@ -210,15 +251,19 @@ def concretise(shape, entry, dims, rng, tier, k):
     small_reads = total <= 70000
     conn = dict(entry=entry, refuse=ops(shape["t"]) == ["refuse"], c=side(shape["c"], 0), t=side(shape["t"], 5),
                 rbuf_c=rb[(k // 2) % len(rb)] if small_reads else rb[k % 2], rbuf_t=rb[(k // 3) % len(rb)] if small_reads else rb[(k + 1) % 2])
-    if any(o.get("cls") == "huge" for o in conn["c"] + conn["t"]):
+    if any(o.get("cls") == "huge" or o["op"] == "wbig" for o in conn["c"] + conn["t"]):
         conn["rbuf_c"] = conn["rbuf_t"] = 65536
+    conn["rhold_c"] = shape.get("rhold") == "c"
+    conn["rhold_t"] = shape.get("rhold") == "t"
     return conn
 
 
 def concretise_udp(u, dims, rng, sid):
     sz = dims["udp"]
     pick = lambda a, i: (sz["empty"] if a == 0 else sz["small"] if a == 1 else sz["large"])[i % len(sz["empty"] if a == 0 else sz["small"] if a == 1 else sz["large"])]
-    clients = [dict(dgrams=[dict(idle=True) if a < 0 else pick(a, sid + 3 * k + j) for j, a in enumerate(prof)])
+    # a < 0: an idle period; a >= 10: size class a - 10, addressed to the second target
+    clients = [dict(dgrams=[dict(idle=True) if a < 0 else dict(n=pick(a - 10, sid + 3 * k + j), to=2) if a >= 10
+                            else pick(a, sid + 3 * k + j) for j, a in enumerate(prof)])
                for k, prof in enumerate(u["clients"])]
     replies = [pick(a, sid + 7 + j) for j, a in enumerate(u["replies"])]
     return dict(ev="script", id=sid, proto="udp", mode=u["mode"], assoc=u["assoc"], clients=clients, replies=replies)
@@ -228,6 +273,11 @@ def build_scripts(shapes, ushapes, dims, tier, seed, T):
     rng = random.Random(int(seed) * 7919 + 17)
     entries = dims["entries"]
     conns = []  # (shape, entry)
+    hold = [s for s in shapes if s.get("rhold", "none") != "none"]
+    sync = [s for s in shapes if s.get("rhold", "none") == "none" and "sync" in ops(s["c"]) + ops(s["t"])]
+    shapes = [s for s in shapes if s not in hold and s not in sync]
+    if not hold or not sync:
+        raise ToolError("vacuous generation: no back-pressure / sync shape")
     if T["tcp_conns"] is None:
         # thorough: every generated shape on every entry point kind
         for i, s in enumerate(shapes):
@@ -249,6 +299,32 @@ def build_scripts(shapes, ushapes, dims, tier, seed, T):
         rng.shuffle(conns)
     for _ in range(T["random_conns"]):
         conns.append((rng.choice(shapes), rng.choice(entries)))
+    # requests that must arrive while the connection stays open: cheap, mixed with the others
+    if T["sync_conns"] is None:
+        conns += [(s, e) for s in sync for e in entries]
+    else:
+        after_eof = [s for s in sync if "sync_after_peer_eof" in features(s)]
+        for i in range(T["sync_conns"]):
+            pool = after_eof if i % 2 == 0 else sync
+            conns.append((pool[rng.randrange(len(pool))], entries[(i + int(seed)) % len(entries)]))
+    rng.shuffle(conns)
+    # back-pressure: both mirror images, every entry point kind (thorough) / a handful (quick); each connection moves
+    # hundreds of MiB, so they run one or two at a time
+    heavy = []
+    if T["hold_conns"] is None:
+        hs = sorted(hold, key=lambda s: json.dumps(s, sort_keys=True))
+        rng.shuffle(hs)
+        for i, s in enumerate(hs):
+            heavy.append((s, entries[i % len(entries)]))
+        for side in ("c", "t"):                      # every (mirror image, entry point kind) pair at least twice
+            pool = [s for s in hs if s["rhold"] == side]
+            for i, e in enumerate(entries + entries):
+                heavy.append((pool[(3 * i + 1) % len(pool)], e))
+    else:
+        for i in range(T["hold_conns"]):
+            side = "c" if i % 3 != 2 else "t"
+            pool = [s for s in hold if s["rhold"] == side]
+            heavy.append((pool[rng.randrange(len(pool))], entries[(2 * i + int(seed)) % len(entries)]))
     scripts = []
     sid = 0
     i = 0
@@ -260,15 +336,28 @@ def build_scripts(shapes, ushapes, dims, tier, seed, T):
         i += n
         scripts.append(dict(ev="script", id=sid, proto="tcp",
                             conns=[concretise(s, e, dims, rng, tier, sid * 3 + j) for j, (s, e) in enumerate(group)]))
+    i = 0
+    while i < len(heavy):
+        n = 1 if T["hold_conns"] is not None else 1 + (sid % 2)
+        sid += 1
+        group = heavy[i:i + n]
+        i += n
+        scripts.append(dict(ev="script", id=sid, proto="tcp",
+                            conns=[concretise(s, e, dims, rng, tier, sid * 3 + j) for j, (s, e) in enumerate(group)]))
     is_idle = lambda u: any(a < 0 for prof in u["clients"] for a in prof)
+    is_alt = lambda u: any(a >= 10 for prof in u["clients"] for a in prof)
     idle = [u for u in ushapes if is_idle(u)]
-    us = [u for u in ushapes if not is_idle(u)]
+    alt = [u for u in ushapes if is_alt(u)]
+    us = [u for u in ushapes if not is_idle(u) and not is_alt(u)]
     if not idle:
         raise ToolError("vacuous generation: no UDP shape with an idle period")
     if T["udp_scripts"] is not None:
         # quick: both modes, shared and own associations, 1..3 clients; ONE exchange with an idle period (10 s of real time)
         rng.shuffle(us)
-        idle = [sorted(idle, key=lambda u: (len(u["clients"]), u["mode"] != ["udp", "socks5"][int(seed) % 2]))[0]]
+        # (SOCKS5 mode: it has targets of its own and runs in the background of the other scripts)
+        idle = [sorted(idle, key=lambda u: (u["mode"] != "socks5", len(u["clients"]) != 1 + int(seed) % 2))[0]]
+        rng.shuffle(alt)
+        alt = ([u for u in alt if u["assoc"] == "own"][:1] + [u for u in alt if u["assoc"] == "shared"][:1])[:T["alt_scripts"]]
         chosen, seen = [], set()
         for u in us:
             key = (u["mode"], u["assoc"], len(u["clients"]))
@@ -281,9 +370,16 @@ def build_scripts(shapes, ushapes, dims, tier, seed, T):
             if u not in chosen:
                 chosen.append(u)
         us = chosen
-    for u in us + idle:
+    # exchanges with an idle period in SOCKS5 mode first: they run in the background (10 s of waiting each)
+    bg = [u for u in idle if u["mode"] == "socks5"]
+    for u in bg + us + alt + [u for u in idle if u["mode"] != "socks5"]:
         sid += 1
-        scripts.append(concretise_udp(u, dims, rng, sid))
+        sc = concretise_udp(u, dims, rng, sid)
+        if u in bg:
+            sc["bg"] = True
+        scripts.append(sc)
+    # the background exchanges are started first, so that their waiting overlaps with everything else
+    scripts = [s for s in scripts if s.get("bg")] + [s for s in scripts if not s.get("bg")]
     return scripts
 
 
@@ -326,16 +422,18 @@ def group_log(raw_path, grouped_path):
         if sc["proto"] == "tcp":
             spec = sc["conns"][c - 1]
             rec = dict(kind="tcp", s=s, c=c, entry=spec["entry"], refuse=bool(spec.get("refuse")),
+                       rhold_c=bool(spec.get("rhold_c")), rhold_t=bool(spec.get("rhold_t")),
                        C=[strip(e) for e in eps.get("c", [])], T=[strip(e) for e in eps.get("t", [])])
         else:
-            tl = eps.get("t", [])
-            meta = [e for e in tl if e["ev"] == "tmeta"]
+            tl, tl2 = eps.get("t", []), eps.get("t2", [])
+            meta = [e for e in tl + tl2 if e["ev"] == "tmeta"]
             if not meta:
                 raise ToolError(f"script {s}: no tmeta line")
             n = len(sc["clients"])
-            rec = dict(kind="udp", s=s, c=0, mode=sc["mode"], tgt=dict(addr=meta[0]["addr"], port=meta[0]["port"]),
+            rec = dict(kind="udp", s=s, c=0, mode=sc["mode"],
+                       tgts=[dict(addr=m["addr"], port=m["port"]) for m in sorted(meta, key=lambda m: m["tgt"])],
                        CL=[[strip(e) for e in eps.get(f"c{k + 1}", [])] for k in range(n)],
-                       T=[strip(e) for e in tl if e["ev"] != "tmeta"])
+                       T=[strip(e) for e in tl if e["ev"] != "tmeta"], T2=[strip(e) for e in tl2 if e["ev"] != "tmeta"])
         items.append(dict(s=s, c=c, kind=rec["kind"], eps=eps))
         lines.append(json.dumps(rec, separators=(",", ":")))
     for r in sys_lines:
@@ -392,7 +490,7 @@ def show_events(item, limit=40):
     return "\n".join(out)
 
 
-def self_test(work, accepted_recs):
+def self_test(work, accepted_recs, strict=True):
     """The binding is real: hand-made corruptions of ACCEPTED lines of this very run must be rejected by TLC, each with
     the signature of the clause it breaks. Returns {mutation: signature}."""
     muts = []
@@ -458,7 +556,35 @@ def self_test(work, accepted_recs):
         for fld in ("n", "head", "sfx"):
             ea[fld], eb[fld] = eb[fld], ea[fld]
         muts.append(("udp_reply_wrong_client", m, {"udp_reply_wrong_client"}))
-    if len(muts) < 4:
+    # a request that did not arrive against the blocked direction: the harness's statement put where the `sync` was
+    for r in tcp:
+        if r.get("rhold_c") or r.get("rhold_t"):
+            side = "C" if r["rhold_c"] else "T"
+            names = [e["ev"] for e in r[side]]
+            if "ron" in names and "send" in names[:names.index("ron")] and not any(e["ev"] in ("reset", "timeout") for e in r["C"] + r["T"]):
+                m = clone(r)
+                i = names.index("ron")
+                sent = sum(e["n"] for e in m[side][:i] if e["ev"] == "send")
+                m[side].insert(i, dict(ev="timeout", what="delivery", sent=sent, got=0, peer_reading=True, peer_fin=True))
+                muts.append(("direction_blocked", m, {"direction_blocked"}))
+                break
+    # one client, two targets: a datagram addressed to the second target turns up at the first one
+    for r in accepted_recs:
+        if r["kind"] == "udp" and any(e["ev"] == "trecv" and e["n"] > 0 for e in r.get("T2", [])):
+            m = clone(r)
+            i = [i for i, e in enumerate(m["T2"]) if e["ev"] == "trecv" and e["n"] > 0][0]
+            moved = m["T2"][i:i + 2]          # the datagram and the reply it got
+            del m["T2"][i:i + 2]
+            for e in moved:
+                e["tgt"] = 1
+            m["T"] += moved
+            muts.append(("udp_datagram_wrong_target", m, {"udp_datagram_wrong_target"}))
+            break
+    need = {"direction_blocked", "udp_datagram_wrong_target", "tcp_bytes_lost", "left_hanging"}
+    # (when lines of this run were rejected, the material for a corruption may be missing: that is the finding's business)
+    if strict and not need <= {n for n, _, _ in muts}:
+        raise ToolError(f"self-test: corruptions {sorted(need - {n for n, _, _ in muts})} could not be derived from the accepted lines of this run")
+    if len(muts) < (4 if strict else 1):
         raise ToolError(f"self-test: only {len(muts)} corruptions could be derived from the accepted lines of this run")
     path = os.path.join(work, "selftest.ndjson")
     with open(path, "w") as f:
@@ -535,7 +661,7 @@ def check(prop, tier, seed, replay):
         # 4. the binding is real: corrupt accepted lines, TLC must reject them
         st = None
         if not replay:
-            st = self_test(work, [r for i, r in enumerate(recs, 1) if i not in badset])
+            st = self_test(work, [r for i, r in enumerate(recs, 1) if i not in badset], strict=not bad)
             log("[selftest] hand-corrupted copies of accepted lines rejected by TLC: " + ", ".join(f"{k}->{v}" for k, v in st.items()))
         # 5. verdict
         known = {k.get("sig"): k for k in vlib.load_known()
@@ -570,11 +696,11 @@ def check(prop, tier, seed, replay):
                 print(f"KNOWN-FINDING: property={prop} {known[sig]['what']}", flush=True)
                 log(f"   [{sig}] {len(its)} rejected, smallest: script {first[0]['s']} connection {first[0]['c']} {json.dumps(first[1], sort_keys=True)}")
                 continue
-            text, seen = [], set()
+            seen = set()
             for it, _ in its:
                 if it["s"] not in seen and len(seen) < MAX_REPLAY_SCRIPTS and it["s"] in script_of:
                     seen.add(it["s"])
-                    text.append(json.dumps(script_of[it["s"]], separators=(",", ":")) + "\n")
+            text = [json.dumps(script_of[sid], separators=(",", ":")) + "\n" for sid in sorted(seen)]
             # the replay file holds the scripts only (ports and timings differ from run to run: the observed logs are in
             # the note next to it), so the same finding is saved under the same name every time
             path = vlib.save_replay(prop, re.sub(r"[^A-Za-z0-9_]+", "_", sig), text, note="\n".join(note))
@@ -621,7 +747,8 @@ def check(prop, tier, seed, replay):
             for s in scripts:
                 for cn in s.get("conns", []):
                     sh = dict(c=[dict(op=o["op"], n=min(o.get("n", 0), 1)) for o in cn["c"]],
-                              t=[dict(op="refuse", n=0)] if cn["refuse"] else [dict(op=o["op"], n=min(o.get("n", 0), 1)) for o in cn["t"]])
+                              t=[dict(op="refuse", n=0)] if cn["refuse"] else [dict(op=o["op"], n=min(o.get("n", 0), 1)) for o in cn["t"]],
+                              rhold="c" if cn.get("rhold_c") else "t" if cn.get("rhold_t") else "none")
                     for f in features(sh):
                         feats[f] += 1
             coverage = dict(
@@ -652,7 +779,8 @@ def check(prop, tier, seed, replay):
                             "the driver plays each script on ONE real penguin client and ONE real penguin server connected over "
                             "loopback, with real sockets at a local client (after the entry point's own handshake: fixed TCP "
                             "remote, Unix-socket remote, SOCKS4, SOCKS4a, SOCKS5 with IPv4 and domain-name address, HTTP CONNECT, "
-                            "UDP remote, SOCKS5 UDP ASSOCIATE with own and shared associations) and at a harness-owned target; "
+                            "UDP remote, SOCKS5 UDP ASSOCIATE with own and shared associations, one client alternating between two "
+                            "targets) and at harness-owned targets; endpoints may start with their reader held (back-pressure); "
                             "TLC validates the per-endpoint logs of every connection against the oracle, searching the "
                             "interleavings of the two endpoint logs (spec/TunnelTrace.tla)",
             )
@@ -663,8 +791,13 @@ def check(prop, tier, seed, replay):
                 "cross-endpoint order is never measured: each endpoint's log is exact in its own order (causes are logged before "
                 "the system call, observations after it) and TLC accepts a connection iff some interleaving of the two logs is a "
                 "behaviour of a direct connection",
-                "the only timing-dependent judgement is `timeout`: the peer finished (half-close, close or refusal) at least "
-                f"{T['deadline_ms']} ms ago on the harness's clock and this endpoint still saw neither end-of-stream nor a reset",
+                "the only timing-dependent judgements are `timeout`s, made on the harness's own clock (it owns both endpoints): the "
+                f"peer finished (half-close, close or refusal) at least {T['deadline_ms']} ms ago and this endpoint still saw neither "
+                "end-of-stream nor a reset; or (`delivery`) the peer's reader ran for that long and still had not read everything "
+                "this endpoint wrote (a direct connection delivers at once: the two directions are independent)",
+                "back-pressure is real, not simulated: the held endpoint does not read, the streaming endpoint writes piece after "
+                "piece until the held reader is started (the unchanged tunnel absorbs 90-450 MiB before a writer blocks, so the "
+                "amount is not a constant), and the held endpoint writes its request once the peer's writer stands still",
                 "content is position coded by a keyed hash of (seed, script, connection, direction, offset): a receiver logs ranges "
                 "of correctly coded octets, so loss, duplication, reordering, corruption and cross-talk between connections show "
                 "up as a range that does not continue the previous one or as a `bad` octet (up to hash collisions); UDP payloads "
